@@ -158,6 +158,9 @@ def _is_safety(prop, why):
     return any(why == w or why.endswith(":" + w) or why.endswith(w) for w in SAFETY_WHY.get(prop, ()))
 
 
+TESTTRACE_PROPS = {"C01", "C02", "C03", "C04", "C05", "C06", "C07", "C08", "C10"}
+
+
 def add_safety(prop, tier, seed, workdir, res):
     if prop in TESTTRACE_PROPS:
         testtrace.run_props(prop, tier, seed, workdir, res)      # the repository's own tests as a conformance corpus
@@ -253,7 +256,13 @@ def run_c06(prop, tier, seed, workdir):
 
 
 ENGINES["C07"] = run_c07
-ENGINES["C10"] = run_arena
+def run_c10(prop, tier, seed, workdir):
+    res = run_arena(prop, tier, seed, workdir)
+    testtrace.run_props(prop, tier, seed, workdir, res)      # the query calls of the repository's own tests
+    return res
+
+
+ENGINES["C10"] = run_c10
 ENGINES["C02"] = run_arena_and_os
 ENGINES["C06"] = run_c06
 def run_c01(prop, tier, seed, workdir):
